@@ -79,17 +79,20 @@ def m_conservation(ctx, pre, act, obs, post):
     upre, upost = dict(all_units(pre)), dict(all_units(post))
     if set(upre) != set(upost):
         return [V(f"{site(pre, act)} | frame-changed | {feat}", "the set of wells/containers changed", ctx['case'])]
-    names = set()
-    for c in list(upre.values()) + list(upost.values()):
-        names.update(c.contents)
+    # accounting per substance as identified by its parameters, never through Substance.__eq__ / __hash__
+    ipre, ipost = [e1.by_ident(c.contents) for c in upre.values()], [e1.by_ident(c.contents) for c in upost.values()]
+    idents = set()
+    for d in ipre + ipost:
+        idents.update(d)
     n_touch = len(sreg) + len(dreg)
-    for s in sorted(names, key=lambda x: x.name):
-        before = math.fsum(c.contents.get(s, 0.0) for c in upre.values())
-        after = math.fsum(c.contents.get(s, 0.0) for c in upost.values())
+    for s in sorted(idents, key=repr):
+        before = math.fsum(d.get(s, 0.0) for d in ipre)
+        after = math.fsum(d.get(s, 0.0) for d in ipost)
         if abs(after - before) > ref.tol(pp, before, 0, scale=n_touch):
-            vs.append(V(f"{site(pre, act)} | not-conserved | {feat}",
-                        f"{e1.act_str(act)}: total {s.name} over all objects changed from {before!r} to {after!r} "
-                        f"(storage units)", ctx['case'], before, after))
+            twin = ',twin' if sum(1 for i in idents if i[0] == s[0]) > 1 else ''
+            vs.append(V(f"{site(pre, act)} | not-conserved | {feat}{twin}",
+                        f"{e1.act_str(act)}: total {s[0]}{' ' + repr(s[1:]) if twin else ''} over all objects changed from "
+                        f"{before!r} to {after!r} (storage units)", ctx['case'], before, after))
             break
     touched = set(sreg) | set(dreg)
     for addr, c in upre.items():
@@ -146,26 +149,40 @@ def m_aliquot(ctx, pre, act, obs, post):
             if q == 0:
                 frac[s] = F(0)
                 continue
-            return        # nothing to measure: the call should have been refused (C03)
+            # the call returned although the source holds nothing that the unit of q measures: no aliquot of size q left it
+            return [V(f"{site(pre, act)} | wrong-size | {feat},nothing-available",
+                      f"{e1.act_str(act)} returned although source {s} holds nothing measurable in {unit}: the amount taken "
+                      f"cannot be q", ctx['case'], 'refused', 'returned')]
+        if m * q > M * (1 + F(1, 10 ** 6)):
+            return [V(f"{site(pre, act)} | wrong-size | {feat},more-than-available",
+                      f"{e1.act_str(act)} returned although source {s} holds {float(M)!r} {unit} and {m} x {float(q)!r} were "
+                      f"requested: the amounts taken cannot all be q", ctx['case'], 'refused', 'returned')]
         if m * q > M * (1 + F(1, 10 ** 9)):
-            return        # over-draw: C03
+            return        # within float noise of taking everything: C03's boundary cases
         frac[s] = q / M
     expect = {}          # addr -> {substance: expected stored amount}
+    I = e1.ident          # substances are told apart by what they are, never through Substance.__eq__ / __hash__
     for s, m in n_out.items():
         c = e1.well_of(pre, s)
-        expect[s] = {x: F(a) * (1 - m * frac[s]) for x, a in c.contents.items()}
+        expect[s] = {}
+        for x, a in c.contents.items():
+            expect[s][I(x)] = expect[s].get(I(x), F(0)) + F(a) * (1 - m * frac[s])
     for s, d in pairs:
         if d not in expect:
-            expect[d] = {x: F(a) for x, a in e1.well_of(pre, d).contents.items()}
+            expect[d] = {}
+            for x, a in e1.well_of(pre, d).contents.items():
+                expect[d][I(x)] = expect[d].get(I(x), F(0)) + F(a)
         for x, a in e1.well_of(pre, s).contents.items():
-            expect[d][x] = expect[d].get(x, F(0)) + F(a) * frac[s]
+            expect[d][I(x)] = expect[d].get(I(x), F(0)) + F(a) * frac[s]
     m_max = max(n_out.values())
     scale = m_max + len(pairs) / max(1, len(dreg)) + 1
     unc = max(ratio_unc(pp, e1.well_of(pre, s).contents, unit) for s in n_out)
-    for addr, exp in expect.items():
-        got = e1.well_of(post, addr).contents
-        pre_c = e1.well_of(pre, addr).contents
-        for x in set(exp) | set(got):
+    for addr, exp_s in expect.items():
+        # compared per substance identity (name, kind, parameters), never through Substance.__eq__ / __hash__
+        exp = exp_s
+        got = e1.by_ident(e1.well_of(post, addr).contents)
+        pre_c = e1.by_ident(e1.well_of(pre, addr).contents)
+        for x in sorted(set(exp) | set(got), key=repr):
             e = exp.get(x, F(0))
             g = got.get(x, 0.0)
             moved = max(abs(float(e) - pre_c.get(x, 0.0)), abs(float(e)))
@@ -174,7 +191,7 @@ def m_aliquot(ctx, pre, act, obs, post):
                 kind = 'wrong-size'
                 # uniformity: does the source keep one common fraction?
                 return [V(f"{site(pre, act)} | {kind} | {feat},side={role}",
-                          f"{e1.act_str(act)}: {role} {addr} holds {g!r} of {x.name}, a uniform aliquot of size q "
+                          f"{e1.act_str(act)}: {role} {addr} holds {g!r} of {x[0]}, a uniform aliquot of size q "
                           f"gives {float(e)!r} (storage units)", ctx['case'], float(e), g)]
     return
 
